@@ -249,6 +249,39 @@ theorem strict_unknown_deep {e : BEnv} {Γ : Ctx} {cfg : ParserConfig} {uq : QN}
     rw [parseKids.eq_2]
     simp only [Option.isNone_none, Bool.true_and, hw, if_true, ih hb, bind, Except.bind]
 
+/-- **strict_unknown_deep_root**: for `NodeParser.parse` -/
+theorem strict_unknown_deep_root {e : BEnv} {Γ : Ctx} {cfg : ParserConfig} {clazz : ClassId} {uq : QN}
+    {pa : List (QN × Str)} {pn : NsMap} {m : XmlMeta} {ks ks' : List Tree}
+    (hc : cfg.failOnUnknownProperties = true)
+    (hm : rootMeta e Γ clazz pa pn = some m)
+    (h : InjectedKids e Γ cfg uq m {} none ks ks' true) (pq : QN) (pt ptl : Option Str) :
+    parseRoot e Γ cfg clazz (.node pq pa pn pt ks' ptl) = .error (.parser "Unknown property") := by
+  simp only [parseRoot, bind, Except.bind]
+  cases hx : xsiTypeOf e pa pn with
+  | error err => simp [rootMeta, hx] at hm
+  | ok xt =>
+    simp only
+    cases hf : Γ.fetch clazz none xt with
+    | error err => simp [rootMeta, hx, hf] at hm
+    | ok m' =>
+      have : m' = m := by simpa [rootMeta, hx, hf] using hm
+      subst this
+      simp only [parseNode, strict_unknown_deep hc h, bind, Except.bind]
+
+/-- **strict_assigned_fails**: the strict counterpart of `skip_invariant_assigned`: a second
+occurrence of a single-valued element (every candidate passed over) is reported as an
+unknown property. -/
+theorem strict_assigned_fails {e : BEnv} {Γ : Ctx} {cfg : ParserConfig} {m : XmlMeta} {q : QN}
+    (hc : cfg.failOnUnknownProperties = true)
+    {a : List (QN × Str)} {n : NsMap} (t : Option Str) (c : List Tree) (tl : Option Str)
+    {st st1 : ElState} {o1 : Out} {w : Option QN} {pre : List Tree} (post : List Tree)
+    (hpre : parseKids e Γ cfg m st w pre = .ok (o1, st1))
+    (hq : noCandidate e Γ m st1 q a n w = true) :
+    parseKids e Γ cfg m st w (pre ++ .node q a n t c tl :: post) = .error (.parser "Unknown property") := by
+  rw [parseKids_append, hpre]
+  simp only [seqKids]
+  rw [parseKids_head_strict hc hq]
+
 /-! ## 4. children of simple-typed elements are invalid content, not unknown properties -/
 
 /-- **child_in_primitive_rejected**: a child element under a `PrimitiveNode` raises
